@@ -131,6 +131,8 @@ type bind struct {
 	tmplAvoid []string // template-introduced binder names
 	isMacro   bool
 	file      int
+	presig    bool   // signature fixed when the section was planned (callable before its definition)
+	fwdUsed   bool   // the body calls a function defined further down
 	defconst  bool   // written (defconst name value "doc"): a set plus an implicit export
 	nested    string // "let" | "progn": the defining form is wrapped in another TOP-LEVEL form
 }
@@ -148,4 +150,5 @@ type pkg struct {
 	impConflict map[string]bool // name imported from two different packages (the later use-package wins at run time)
 	exports     []*bind
 	uses        map[string]bool // packages this one has executed (use-package ...) on so far
+	refd        map[string]bool // imported names this package's code has referenced bare so far
 }
